@@ -81,22 +81,69 @@ func TrimLine(s string) string { return strings.TrimFunc(s, Trimmable) }
 // ---------- rendering ----------
 
 type Render struct {
-	EOL         string // "\n", "\r\n", "\r"
-	BOM         bool
-	Index       []int // per cue: 0 k, 1 absent, 2 "abc", 3 "0"
-	BlankBetw   int   // 1..3
-	EOF         int   // 0 last line terminated; 1 unterminated; 2,3,4: terminated + 1,2,3 blank lines
-	Sep         string
-	FracDigits  int  // 3,2,1 (used when the instant allows)
-	HourDigits  int  // 2,1,3
-	Arrow       string
-	Coords      string
-	Lazy        bool // keep tags open across runs/lines that share them (multi-line tags)
-	LeaveOpen   bool // do not close the tags still open at the end of a cue
-	UpperTags   bool
-	ColorQuote  int // 0 "x", 1 'x', 2 unquoted, 3 among other attributes (face, size)
-	LineSpaces  int // 0 none, 1 leading, 2 trailing, 3 both
-	NBSPEntity  bool
+	EOL        string // "\n", "\r\n", "\r"
+	BOM        bool
+	Index      []int // per cue: an index form, see IndexLine (0 k+1, 1 absent, 2 "abc", 3 "0", 4.. further forms)
+	BlankBetw  int   // 1..3
+	EOF        int   // 0 last line terminated; 1 unterminated; 2,3,4: terminated + 1,2,3 blank lines
+	Sep        string
+	FracDigits int // 3,2,1 (used when the instant allows)
+	HourDigits int // 2,1,3 (used when the hour allows)
+	Arrow      string
+	Coords     string
+	Lazy       bool // keep tags open across runs/lines that share them (multi-line tags)
+	LeaveOpen  bool // do not close the tags still open at the end of a cue
+	UpperTags  bool
+	ColorQuote int // form of the opening font tag, see openFont (0 "x", 1 'x', 2 unquoted, 3 among other attributes, 4.. further forms)
+	LineSpaces int // 0 none, 1 leading, 2 trailing, 3 both; 4 leading tab, 5 trailing tab, 6 two blanks on both sides
+	NBSPEntity bool
+
+	BlankForm  string // content of a "blank" line between cues and at end of file: "", " ", "\t", "  "
+	HeadPad    int    // white space around the index and timing lines: 0 none, 1 trailing blank, 2 leading blank, 3 trailing tab
+	TagOrder   int    // permutation (lexicographic rank, 0 = font,b,i,u) giving the order in which tags are opened
+	CloseSame  bool   // close tags in the order they were opened (overlapping) instead of mirrored
+	PlainFont  int    // wrap runs without colour in a colourless font tag: 0 no, 1 <font face="Arial">, 2 <font color="">, 3 <font>
+	StrayClose int    // closing tag without an opening one: 0 none; at the start of a cue's first line 1 </i>, 2 </font>, 3 </b></u>; 4 </i> at the end of its last line
+	RawAmp     bool   // write '&' unescaped when a blank follows it
+}
+
+// NIndexForms, NFontForms, NLineSpaces: number of forms of the respective rendering choice.
+const (
+	NIndexForms = 13
+	NFontForms  = 11
+	NLineSpaces = 7
+)
+
+// IndexLine returns the cue-number line of cue k (0-based) in the given form; ok=false: no such line.
+func IndexLine(form, k int) (string, bool) {
+	n := strconv.Itoa(k + 1)
+	switch form {
+	case 1:
+		return "", false
+	case 2:
+		return "abc", true
+	case 3:
+		return "0", true
+	case 4:
+		return fmt.Sprintf("%03d", k+1), true
+	case 5:
+		return "-1", true
+	case 6:
+		return n + "a", true
+	case 7:
+		return "#" + n, true
+	case 8:
+		return "99999999999999999999", true
+	case 9:
+		return n + ".", true
+	case 10:
+		return "\u0663", true
+	case 11:
+		return "+5", true
+	case 12:
+		return "1 2", true
+	}
+	return n, true
 }
 
 func DefaultRender(ncues int) Render {
@@ -114,6 +161,8 @@ func fmtTime(ms int64, r Render) string {
 		hs = strconv.FormatInt(h, 10)
 	case r.HourDigits == 3 && h < 100:
 		hs = fmt.Sprintf("%03d", h)
+	case r.HourDigits == 4 && h < 1000:
+		hs = fmt.Sprintf("%04d", h)
 	default:
 		hs = fmt.Sprintf("%02d", h)
 	}
@@ -133,7 +182,11 @@ func escape(t string, r Render, edgeSafe bool) string {
 	for i, ch := range rs {
 		switch ch {
 		case '&':
-			b.WriteString("&amp;")
+			if r.RawAmp && i+1 < len(rs) && rs[i+1] == ' ' {
+				b.WriteString("&")
+			} else {
+				b.WriteString("&amp;")
+			}
 		case '<':
 			b.WriteString("&lt;")
 		case '\u00a0':
@@ -157,100 +210,208 @@ func tag(name string, r Render) string {
 }
 
 func openFont(color string, r Render) string {
+	f := "<" + tag("font", r)
 	switch r.ColorQuote {
 	case 1:
-		return "<" + tag("font", r) + " color='" + color + "'>"
+		return f + " color='" + color + "'>"
 	case 2:
-		return "<" + tag("font", r) + " color=" + color + ">"
+		return f + " color=" + color + ">"
 	case 3:
-		return "<" + tag("font", r) + " face=\"Arial\" color=\"" + color + "\" size=\"12\">"
+		return f + " face=\"Arial\" color=\"" + color + "\" size=\"12\">"
+	case 4:
+		return f + " color = \"" + color + "\">"
+	case 5:
+		return f + " COLOR=\"" + color + "\">"
+	case 6:
+		return f + " Color='" + color + "'>"
+	case 7:
+		return f + " size=\"12\" face='Arial' color=\"" + color + "\">"
+	case 8:
+		return f + " color=\"" + color + "\" >"
+	case 9:
+		return f + "  color=\"" + color + "\">"
+	case 10:
+		return f + " color=" + color + " size=12>"
 	}
-	return "<" + tag("font", r) + " color=\"" + color + "\">"
+	return f + " color=\"" + color + "\">"
 }
+
+// tagPerms: the 24 orders of the four tags (0 font, 1 b, 2 i, 3 u) in lexicographic order.
+var tagPerms = func() [][4]int {
+	var out [][4]int
+	var rec func(p []int, used [4]bool)
+	rec = func(p []int, used [4]bool) {
+		if len(p) == 4 {
+			out = append(out, [4]int{p[0], p[1], p[2], p[3]})
+			return
+		}
+		for t := 0; t < 4; t++ {
+			if !used[t] {
+				used[t] = true
+				rec(append(append([]int{}, p...), t), used)
+				used[t] = false
+			}
+		}
+	}
+	rec(nil, [4]bool{})
+	return out
+}()
+
+// NTagOrders is the number of tag orders.
+const NTagOrders = 24
+
+var tagNames = [4]string{"font", "b", "i", "u"}
+var lineLead = [NLineSpaces]string{"", " ", "", " ", "\t", "", "  "}
+var lineTrail = [NLineSpaces]string{"", "", " ", " ", "", "\t", "  "}
 
 // Bytes renders the document.
 func (d Doc) Bytes(r Render) []byte {
 	var lines []string
+	padHead := func(l string) string {
+		switch r.HeadPad {
+		case 1:
+			return l + " "
+		case 2:
+			return " " + l
+		case 3:
+			return l + "\t"
+		}
+		return l
+	}
+	openOrder := tagPerms[r.TagOrder%NTagOrders]
+	endOrder := [4]int{openOrder[3], openOrder[2], openOrder[1], openOrder[0]}
+	if r.CloseSame {
+		endOrder = openOrder
+	}
+	midOrder := endOrder
+	if r.TagOrder == 0 && !r.CloseSame {
+		midOrder = [4]int{0, 3, 2, 1}
+	}
 	for k, c := range d {
 		if k > 0 {
 			for i := 0; i < r.BlankBetw; i++ {
-				lines = append(lines, "")
+				lines = append(lines, r.BlankForm)
 			}
 		}
-		switch r.Index[k] {
-		case 0:
-			lines = append(lines, strconv.Itoa(k+1))
-		case 2:
-			lines = append(lines, "abc")
-		case 3:
-			lines = append(lines, "0")
+		if il, ok := IndexLine(r.Index[k], k); ok {
+			lines = append(lines, padHead(il))
 		}
-		lines = append(lines, fmtTime(c.Start, r)+r.Arrow+fmtTime(c.End, r)+r.Coords)
+		lines = append(lines, padHead(fmtTime(c.Start, r)+r.Arrow+fmtTime(c.End, r)+r.Coords))
 		var open Style
 		for li, l := range c.Lines {
 			var b strings.Builder
-			if r.LineSpaces&1 != 0 {
-				b.WriteString(" ")
+			isOpen := func(t int) bool {
+				switch t {
+				case 0:
+					return open.Color != ""
+				case 1:
+					return open.B
+				case 2:
+					return open.I
+				}
+				return open.U
+			}
+			closeTag := func(t int) {
+				b.WriteString("</" + tag(tagNames[t], r) + ">")
+				switch t {
+				case 0:
+					open.Color = ""
+				case 1:
+					open.B = false
+				case 2:
+					open.I = false
+				case 3:
+					open.U = false
+				}
+			}
+			b.WriteString(lineLead[r.LineSpaces%NLineSpaces])
+			if li == 0 {
+				switch r.StrayClose {
+				case 1:
+					b.WriteString("</" + tag("i", r) + ">")
+				case 2:
+					b.WriteString("</" + tag("font", r) + ">")
+				case 3:
+					b.WriteString("</" + tag("b", r) + "></" + tag("u", r) + ">")
+				}
 			}
 			for ri, run := range l {
 				want := run.Style
+				wants := func(t int) bool {
+					switch t {
+					case 0:
+						return want.Color != "" && want.Color == open.Color
+					case 1:
+						return want.B
+					case 2:
+						return want.I
+					}
+					return want.U
+				}
 				// close what must go
-				if open.Color != "" && open.Color != want.Color {
-					b.WriteString("</" + tag("font", r) + ">")
-					open.Color = ""
-				}
-				if open.U && !want.U {
-					b.WriteString("</" + tag("u", r) + ">")
-					open.U = false
-				}
-				if open.I && !want.I {
-					b.WriteString("</" + tag("i", r) + ">")
-					open.I = false
-				}
-				if open.B && !want.B {
-					b.WriteString("</" + tag("b", r) + ">")
-					open.B = false
+				for _, t := range midOrder {
+					if isOpen(t) && !wants(t) {
+						closeTag(t)
+					}
 				}
 				// open what is missing
-				if want.Color != "" && open.Color == "" {
-					b.WriteString(openFont(want.Color, r))
-					open.Color = want.Color
+				for _, t := range openOrder {
+					if isOpen(t) {
+						continue
+					}
+					switch t {
+					case 0:
+						if want.Color != "" {
+							b.WriteString(openFont(want.Color, r))
+							open.Color = want.Color
+						}
+					case 1:
+						if want.B {
+							b.WriteString("<" + tag("b", r) + ">")
+							open.B = true
+						}
+					case 2:
+						if want.I {
+							b.WriteString("<" + tag("i", r) + ">")
+							open.I = true
+						}
+					case 3:
+						if want.U {
+							b.WriteString("<" + tag("u", r) + ">")
+							open.U = true
+						}
+					}
 				}
-				if want.B && !open.B {
-					b.WriteString("<" + tag("b", r) + ">")
-					open.B = true
+				if r.PlainFont != 0 && want.Color == "" {
+					switch r.PlainFont {
+					case 1:
+						b.WriteString("<" + tag("font", r) + " face=\"Arial\">")
+					case 2:
+						b.WriteString("<" + tag("font", r) + " color=\"\">")
+					default:
+						b.WriteString("<" + tag("font", r) + ">")
+					}
+					b.WriteString(escape(run.Text, r, true))
+					b.WriteString("</" + tag("font", r) + ">")
+				} else {
+					b.WriteString(escape(run.Text, r, true))
 				}
-				if want.I && !open.I {
-					b.WriteString("<" + tag("i", r) + ">")
-					open.I = true
-				}
-				if want.U && !open.U {
-					b.WriteString("<" + tag("u", r) + ">")
-					open.U = true
-				}
-				b.WriteString(escape(run.Text, r, true))
 				lastOfCue := li == len(c.Lines)-1 && ri == len(l)-1
 				if !r.Lazy || lastOfCue {
 					if !(lastOfCue && r.LeaveOpen) {
-						if open.U {
-							b.WriteString("</" + tag("u", r) + ">")
-						}
-						if open.I {
-							b.WriteString("</" + tag("i", r) + ">")
-						}
-						if open.B {
-							b.WriteString("</" + tag("b", r) + ">")
-						}
-						if open.Color != "" {
-							b.WriteString("</" + tag("font", r) + ">")
+						for _, t := range endOrder {
+							if isOpen(t) {
+								closeTag(t)
+							}
 						}
 						open = Style{}
 					}
 				}
 			}
-			if r.LineSpaces&2 != 0 {
-				b.WriteString(" ")
+			if li == len(c.Lines)-1 && r.StrayClose == 4 {
+				b.WriteString("</" + tag("i", r) + ">")
 			}
+			b.WriteString(lineTrail[r.LineSpaces%NLineSpaces])
 			lines = append(lines, b.String())
 		}
 	}
@@ -265,15 +426,15 @@ func (d Doc) Bytes(r Render) []byte {
 		}
 	}
 	for i := 2; i <= r.EOF; i++ {
+		out.WriteString(r.BlankForm)
 		out.WriteString(r.EOL)
 	}
 	return []byte(out.String())
 }
 
-// ---------- independent decoder (for writer output) ----------
+// ---------- independent decoder ----------
 
 var timingRe = regexp.MustCompile(`^(\d+):(\d\d):(\d\d)[,.](\d{1,3})\s*-->\s*(\d+):(\d\d):(\d\d)[,.](\d{1,3})(\s.*)?$`)
-var digitsRe = regexp.MustCompile(`^\d+$`)
 
 func msOf(h, m, s, f string) int64 {
 	hh, _ := strconv.ParseInt(h, 10, 64)
@@ -286,7 +447,10 @@ func msOf(h, m, s, f string) int64 {
 	return ((hh*60+mm)*60+ss)*1000 + ff
 }
 
-// Decode parses SubRip bytes. Strict flags grammar violations of what a writer should emit.
+func blank(l string) bool { return strings.TrimFunc(l, unicode.IsSpace) == "" }
+
+// Decode parses SubRip bytes: blocks separated by blank lines; a block is an optional cue-number line (any
+// non-blank line directly in front of the timing line), the timing line, and the text lines up to the next blank line.
 func Decode(b []byte) (Doc, error) {
 	s := string(b)
 	s = strings.TrimPrefix(s, "\xef\xbb\xbf")
@@ -296,22 +460,26 @@ func Decode(b []byte) (Doc, error) {
 	var d Doc
 	i := 0
 	for i < len(lines) {
-		if strings.TrimSpace(lines[i]) == "" {
+		if blank(lines[i]) {
 			i++
 			continue
 		}
 		// block start: optional index then timing
-		if digitsRe.MatchString(strings.TrimSpace(lines[i])) && i+1 < len(lines) && timingRe.MatchString(strings.TrimSpace(lines[i+1])) {
+		m := timingRe.FindStringSubmatch(strings.TrimFunc(lines[i], unicode.IsSpace))
+		if m == nil {
 			i++
+			if i >= len(lines) {
+				return nil, fmt.Errorf("line %d: cue number %q without a timing line", i, lines[i-1])
+			}
+			m = timingRe.FindStringSubmatch(strings.TrimFunc(lines[i], unicode.IsSpace))
 		}
-		m := timingRe.FindStringSubmatch(strings.TrimSpace(lines[i]))
 		if m == nil {
 			return nil, fmt.Errorf("line %d: expected a timing line, got %q", i+1, lines[i])
 		}
 		c := Cue{Start: msOf(m[1], m[2], m[3], m[4]), End: msOf(m[5], m[6], m[7], m[8])}
 		i++
 		var st Style
-		for i < len(lines) && strings.TrimSpace(lines[i]) != "" {
+		for i < len(lines) && !blank(lines[i]) {
 			c.Lines = append(c.Lines, decodeLine(lines[i], &st))
 			i++
 		}
